@@ -262,9 +262,11 @@ def subst_conformance(ctx, r: Rust, only_structural: bool = False):
         got = RS.subst_outcomes(r, short)
         spec = SS.subst_table(kind, 'rust')
         for v in spec:
-            if only_structural and v not in STRUCTURAL_VARIANTS:
+            if only_structural and v not in STRUCTURAL_VARIANTS and v != 'MetaVar':
                 continue
-            m = RS.compare(v, got[v], spec[v], refuse_ok=only_structural)
+            # MetaVar (C01): DROPPING the substitution is sound only where the table drops it (the variable of that sort is
+            # declared fresh); keeping it pending is always sound
+            m = RS.compare(v, got[v], spec[v], refuse_ok=only_structural, defer_ok=only_structural and v == 'MetaVar')
             ctx.ob('subst-arm', f'{short}/{v}', m is None, m or '', r.line_of(short),
                    facts={'code': [(sorted(map(str, c)), RS.show(o)) for c, o in got[v]],
                           'table': [(sorted(map(str, c)), RS.show(o)) for c, o in spec[v]]})
